@@ -212,25 +212,34 @@ def worker_run(dst, tmp, prop, shard, nshards, budget, seed):
         return prop, dict(noresult=True)
 
 
+PRIORITY = ["C01", "C02", "C05", "C04", "C13", "C12", "C18", "C03", "C06", "C16", "C17", "C19", "C07", "C08", "C15",
+            "C14", "C20", "C09", "C10", "C11"]
+
+
 def screen(dst, tmp, props, budget, listed, pool):
-    """two shards (0 and 1) of every property's quick workload; returns (caught_by, detail)"""
-    jobs = [pool.submit(worker_run, dst, tmp, p, sh, 8, budget, 0) for p in props for sh in (0, 1)]
+    """two shards (0 and 1) of every property's quick workload, the four most telling properties first;
+    returns (caught_by, detail, crashed)"""
+    props = sorted(props, key=PRIORITY.index)
     caught, detail, crashed = [], None, []
-    for j in jobs:
-        p, r = j.result()
-        if r.get("timeout") or r.get("noresult"):
-            crashed.append(p)
-            continue
-        if r.get("notes", {}).get("harness_crash"):
-            crashed.append(p)
-        for f in r.get("findings", []):
-            sig = f["signature"]
-            if sig.startswith("known:") and (f["property"], sig[6:]) in listed:
+    for group in (props[:4], props[4:]):
+        jobs = [pool.submit(worker_run, dst, tmp, p, sh, 8, budget, 0) for p in group for sh in (0, 1)]
+        for j in jobs:
+            p, r = j.result()
+            if r.get("timeout") or r.get("noresult"):
+                crashed.append(p)
                 continue
-            if p not in caught:
-                caught.append(p)
-                if detail is None:
-                    detail = "%s %s: %s" % (p, f["oracle"], json.dumps(f["detail"], default=repr)[:200])
+            if r.get("notes", {}).get("harness_crash"):
+                crashed.append(p)
+            for f in r.get("findings", []):
+                sig = f["signature"]
+                if sig.startswith("known:") and (f["property"], sig[6:]) in listed:
+                    continue
+                if p not in caught:
+                    caught.append(p)
+                    if detail is None:
+                        detail = "%s %s: %s" % (p, f["oracle"], json.dumps(f["detail"], default=repr)[:200])
+        if caught:
+            break
     return caught, detail, crashed
 
 
@@ -270,6 +279,7 @@ def main():
     ap.add_argument("--jobs", type=int, default=3)
     ap.add_argument("--files")
     ap.add_argument("--kinds")
+    ap.add_argument("--only", help="file with mutant ids (one per line) or comma-separated ids")
     ap.add_argument("--budget", type=float, default=6)
     ap.add_argument("--no-full", action="store_true")
     ap.add_argument("--out", default=os.path.join(VERIF, "automut", "results.jsonl"))
@@ -297,6 +307,10 @@ def main():
             done.add(json.loads(line)["id"])
     rng = random.Random(a.seed)
     todo = [m for m in allm if m[0] not in done]
+    if a.only:
+        ids = set(x.strip() for x in (open(a.only).read().split("\n") if os.path.exists(a.only)
+                                      else a.only.split(",")) if x.strip())
+        todo = [m for m in todo if m[0] in ids]
     if a.sample:
         rng.shuffle(todo)
         todo = todo[:a.sample]
